@@ -145,6 +145,11 @@ func (cs *concurrentStrategy) Dec(APIStream public_types.APIStreamI) error {
 	cs.mutex.Unlock()
 
 	if !found {
+		// The local slot may already be gone (e.g. collected after its expiry)
+		// while an ancestor with a longer expiry still holds one for this request.
+		if cs.parent != nil {
+			return cs.parent.GetQuota().Dec(APIStream)
+		}
 		return nil
 	}
 
